@@ -612,7 +612,7 @@ inductive Weaker : Ty → Ty → Prop
   | seq {t' t} : Weaker t' t → Weaker (.seq t') (.seq t)
   | opt {t' t} : Weaker t' t → Weaker (.opt t') (.opt t)
 
-theorem stripDim_weaker (d : Dim) : Dim.weaker (stripDim d) d := by
+theorem stripDim_weaker (g : List String) (d : Dim) : Dim.weaker (stripDim g d) d := by
   cases d with
   | const n => exact Or.inr rfl
   | unk => exact Or.inr rfl
@@ -622,35 +622,41 @@ theorem stripDim_weaker (d : Dim) : Dim.weaker (stripDim d) d := by
     · exact Or.inl rfl
     · exact Or.inr rfl
 
-theorem stripShape_weaker (s : List Dim) : ShapeWeaker (s.map stripDim) s := by
+theorem stripShape_weaker (g : List String) (s : List Dim) : ShapeWeaker (s.map (stripDim g)) s := by
   induction s with
   | nil => exact .nil
-  | cons d s ih => exact .cons (stripDim_weaker d) ih
+  | cons d s ih => exact .cons (stripDim_weaker g d) ih
 
-theorem stripDim_idem (d : Dim) : stripDim (stripDim d) = stripDim d := by
+theorem stripDim_idem (g : List String) (d : Dim) : stripDim g (stripDim g d) = stripDim g d := by
   cases d with
   | const n => rfl
   | unk => rfl
   | sym s =>
-    by_cases h : isUnkName s = true
-    · simp [stripDim, h]
-    · simp [stripDim, h]
+    show stripDim g (if (isUnkName s && !g.contains s) = true then Dim.unk else Dim.sym s)
+      = (if (isUnkName s && !g.contains s) = true then Dim.unk else Dim.sym s)
+    by_cases h : (isUnkName s && !g.contains s) = true
+    · rw [if_pos h]; rfl
+    · rw [if_neg h]; show (if (isUnkName s && !g.contains s) = true then Dim.unk else Dim.sym s) = Dim.sym s
+      rw [if_neg h]
 
-def dimInvented : Dim → Bool
-  | .sym s => isUnkName s
+def dimInvented (g : List String) : Dim → Bool
+  | .sym s => isUnkName s && !g.contains s
   | _ => false
 
-def tyInvented : Ty → Bool
+def tyInvented (g : List String) : Ty → Bool
   | .tensor _ none => false
-  | .tensor _ (some s) => s.any dimInvented
-  | .seq t => tyInvented t
-  | .opt t => tyInvented t
+  | .tensor _ (some s) => s.any (dimInvented g)
+  | .seq t => tyInvented g t
+  | .opt t => tyInvented g t
 
-theorem stripDim_id (d : Dim) (h : dimInvented d = false) : stripDim d = d := by
+theorem stripDim_id (g : List String) (d : Dim) (h : dimInvented g d = false) : stripDim g d = d := by
   cases d with
   | const n => rfl
   | unk => rfl
-  | sym s => simp only [dimInvented] at h; simp [stripDim, h]
+  | sym s =>
+    simp only [dimInvented] at h
+    show (if (isUnkName s && !g.contains s) = true then Dim.unk else Dim.sym s) = Dim.sym s
+    rw [h]; rfl
 
 /-! ### helper lemmas for the supplements' own rules (Compress, Loop) -/
 
